@@ -60,6 +60,9 @@ def sparql_part(rep, wd, tier, seed):
         lst.sort(key=lambda x: len(x[0].get("text", "")))
         e, hist = lst[0]
         fid = {("J",): "SparqlJoinOverUnboundVariable", ("F",): "SparqlOptionalFilterScope", ("F", "J"): "SparqlJoinOverUnboundVariable"}.get(cls)
+        if what == "values_ignored" and "SparqlValuesIgnored" in known:
+            rep.known("SparqlValuesIgnored", known["SparqlValuesIgnored"]["what_fails"] + f" [{len(lst)} queries, e.g. {e.get('text', '')[:160]}]")
+            continue
         if what == "solutions" and fid in known:
             rep.known(fid, known[fid]["what_fails"])
             if cls == ("F", "J") and "SparqlOptionalFilterScope" in known:
@@ -70,7 +73,7 @@ def sparql_part(rep, wd, tier, seed):
     queries = [e for e in ev if e["a"] == "query"]
     feats = collections.Counter()
     for e in queries:
-        for f in ("DISTINCT", "OPTIONAL", "UNION", "FILTER", "LIMIT", "COUNT"):
+        for f in ("DISTINCT", "OPTIONAL", "UNION", "FILTER", "LIMIT", "COUNT", "ORDER BY", "OFFSET", "GROUP BY", "MINUS", "VALUES", " IN (", "||", "&&"):
             if f in e["text"]:
                 feats[f] += 1
     clsc = collections.Counter("+".join(sorted(sparql_classes.classes(e["q"]["where"]))) or "plain" for e in queries)
